@@ -48,6 +48,15 @@ def gen_history(rng, adversarial):
     return maxrate, evs
 
 
+def mix_history(n):
+    """`mixRun n 0` of Props/C13.lean after the first grant: limit 10 bytes/s, stream 1 saturated
+    with 10-byte reads, stream 2 asking for 4 bytes once a second half-way between."""
+    evs = [(10, 1, Fraction(0))]
+    for k in range(n):
+        evs += [(10, 1, Fraction(k)), (4, 2, Fraction(k) + Fraction(1, 2)), (10, 1, Fraction(k + 1))]
+    return 10, evs
+
+
 def run_real(maxrate, evs):
     from s3transfer.bandwidth import LeakyBucket, RequestExceededException, RequestToken
     clock = Clock()
@@ -73,8 +82,9 @@ def corr(seed, tier):
     rng = rng_for(seed, 'bandwidth')
     lines, metas = [], []
     hists = []
+    corpus = [mix_history(8)]        # the witness of C13.smoothing_allowance_exceeded (finding D17)
     for i in range(300 if tier == 'quick' else 5000):
-        maxrate, evs = gen_history(rng, adversarial=(i % 2 == 0))
+        maxrate, evs = corpus[i] if i < len(corpus) else gen_history(rng, adversarial=(i % 2 == 0))
         outs, total, sched = run_real(maxrate, evs)
         hists.append((maxrate, evs, outs, total, sched))
         lines.append('reset')
@@ -235,7 +245,7 @@ def _expected_iterations(when, cold, attempts, now_after):
 
 
 # ---------------------------------------------------------------------------
-def simulate(seed, nstreams, maxrate, amount, think, n_reads, late, abandon_at, mode='uniform', closing=None):
+def simulate(seed, nstreams, maxrate, amount, think, n_reads, late, abandon_at, mode='uniform', closing=None, amounts=None):
     """Run real BandwidthLimitedStreams sharing one LeakyBucket under the deterministic scheduler in
     virtual time.  think(i, k) -> seconds before stream i's k-th read; late: extra delay added to
     every sleep; abandon_at: {stream: k} the transfer of that stream fails during its k-th wait, or
@@ -253,6 +263,7 @@ def simulate(seed, nstreams, maxrate, amount, think, n_reads, late, abandon_at, 
     bad_returns, refused_after_fail, nconsume = [], {}, {}
     closed = []
     closing = closing or {}
+    amounts = amounts or {}      # per-stream read size (default: `amount`, which is also every stream's threshold)
     with Installed(sch, modules=['bandwidth']) as sh:
         sh.yield_on_release = False     # the grant / refusal is logged right after consume() returns
         from s3transfer.bandwidth import BandwidthLimitedStream, LeakyBucket, TimeUtils
@@ -307,10 +318,10 @@ def simulate(seed, nstreams, maxrate, amount, think, n_reads, late, abandon_at, 
                 st = BandwidthLimitedStream(Src(), bucket, coords[i], LateTime(i), bytes_threshold=amount)
                 tokens[i] = id(st._request_token)
                 owner[id(st._request_token)] = i
-                for k in range(n_reads):
+                for k in range(n_reads if not isinstance(n_reads, dict) else n_reads[i]):
                     sch.sleep(think(i, k))
                     try:
-                        st.read(amount)
+                        st.read(amounts.get(i, amount))
                     except RuntimeError as e:
                         errors.append((i, sch.clock, str(e), sch.tick()))
                         return
@@ -384,6 +395,86 @@ def simulate_small_bodies(seed, nstreams, maxrate, threshold, body_len, n_bodies
     return {'deliveries': sorted(deliveries, key=lambda d: d[2]), 'fail': fail}
 
 
+SMOOTHING = 1.25
+
+
+def window_violations(sim, maxrate, burst):
+    """Windows between two grants in which more bytes moved than the statement allows.  Each grant is
+    classed as *first attempt* or *waited* (its stream had been refused since its previous grant):
+      * windows of first-attempt grants only: 1.25*max*T + burst            (`window_first_attempts`)
+      * windows of waited grants only:        max*T + burst                 (`fifo_lower_bound`)
+      * mixed windows: the statement says 1.25*max*T + burst; the limiter only keeps the sum of the
+        two separate bounds — finding D17.  Above 1.25 and within the sum: signature
+        `window-bound:mixed-first-attempt-and-waiting`; above the sum: `window-bound`."""
+    ev = sorted([(n_, 'r', tok, a, t) for t, a, tok, rt, n_ in sim['refusals']] +
+                [(n_, 'g', tok, a, t) for t, a, tok, n_ in sim['grants']])
+    refused = set()
+    grants = []
+    for n_, k, tok, a, t in ev:
+        if k == 'r':
+            refused.add(tok)
+        else:
+            grants.append((t, a, tok in refused))
+            refused.discard(tok)
+    times = [g[0] for g in grants]
+    cum, cw = [0], [0]
+    for g in grants:
+        cum.append(cum[-1] + g[1])
+        cw.append(cw[-1] + (1 if g[2] else 0))
+    out = {}
+    for a in range(len(grants)):
+        for b in range(a, min(len(grants), a + 400)):
+            T = times[b] - times[a]
+            moved = cum[b + 1] - cum[a]
+            nw = cw[b + 1] - cw[a]
+            nf = (b + 1 - a) - nw
+            if nw == 0:
+                sig, bound, kind = 'window-bound', SMOOTHING * maxrate * T + burst, 'first-attempt reads only'
+            elif nf == 0:
+                sig, bound, kind = 'window-bound:waiting-reads-above-limit', maxrate * T + burst, 'reads that waited only'
+            else:
+                bound, kind = SMOOTHING * maxrate * T + burst, 'first-attempt and waiting reads mixed'
+                within = moved <= (SMOOTHING + 1) * maxrate * T + burst + 1e-6
+                sig = 'window-bound:mixed-first-attempt-and-waiting' if within else 'window-bound'
+            if moved > bound + 1e-6 and sig not in out:
+                w = {'window_start': times[a], 'T': T, 'bytes': moved, 'burst': burst, 'window_kind': kind,
+                     'first_attempt_grants': nf, 'waited_grants': nw}
+                if nf and nw:
+                    w['within_sum_of_separate_bounds'] = within
+                out[sig] = (sig, w, '%d bytes moved in %.4fs (%s), bound %.0f' % (moved, T, kind, bound))
+        if len(out) >= 3:
+            break
+    return list(out.values())
+
+
+def _d17_probe():
+    """Finding D17 on the real classes: one saturated stream with reads of 5 thresholds and one stream
+    reading one threshold at 80 % of the limit — the first is served at the limit through the queue,
+    the second is admitted on top by the rate tracker: 1.6 x max_bandwidth for as long as it lasts."""
+    maxrate, th, big, pace, nper = 100000, 10000, 5, 1.25, 60
+    amounts = {0: big * th, 1: th}
+    nreads = {0: nper, 1: int(nper * big / pace)}
+    sim = simulate(1, 2, maxrate, th, (lambda i, k: 0.0 if i == 0 else pace * th / maxrate), nreads,
+                   (lambda i, k: 0.0), {}, amounts=amounts)
+    if sim['fail'] is not None:
+        return [('limiter-hangs', {'scenario': 'D17 witness'}, repr(sim['fail']))]
+    burst = (2 * 2 + 4) * big * th
+    scenario = {'streams': 2, 'max_bandwidth': maxrate, 'read_threshold': th,
+                'stream_0': 'saturated, reads of %d bytes' % (big * th),
+                'stream_1': 'reads of %d bytes every %.3fs (80%% of the limit)' % (th, pace * th / maxrate)}
+    out = []
+    for sig, w, what in window_violations(sim, maxrate, burst):
+        w = dict(w, scenario=scenario)
+        if sig == 'window-bound:mixed-first-attempt-and-waiting':
+            g = sorted(sim['grants'], key=lambda x: x[3])
+            t_end = min(max(x[0] for x in g if x[2] == tok) for tok in sim['tokens'].values())
+            t0 = t_end * 0.2
+            moved = sum(x[1] for x in g if t0 < x[0] <= t_end)
+            w['sustained_rate_percent_of_limit'] = int(round(100 * moved / (t_end - t0) / maxrate))
+        out.append((sig, w, what))
+    return out
+
+
 def oracle(seed, tier):
     res = OracleResult('C13')
     rng = rng_for(seed, 'bandwidth-oracle')
@@ -417,13 +508,21 @@ def oracle(seed, tier):
             for i in range(nstreams):
                 if rng.random() < 0.6:
                     closing[i] = rng.choice([1, amount // 4, amount // 2, amount - 1])
-        sim = simulate(rng.randrange(1 << 30), nstreams, maxrate, amount, think, n_reads, late, abandon_at, closing=closing)
+        amounts = {}
+        if rng.random() < 0.4:
+            # streams with different read sizes (io_chunksize of downloads vs the block size of upload bodies)
+            for i in range(nstreams):
+                if rng.random() < 0.5:
+                    amounts[i] = amount * rng.choice([2, 3, 5, 8])
+        sim = simulate(rng.randrange(1 << 30), nstreams, maxrate, amount, think, n_reads, late, abandon_at, closing=closing,
+                       amounts=amounts)
         res.evaluations += 1
         if res.enough():
             break
         res.hit(kind)
         wit = {'streams': nstreams, 'max_bandwidth': maxrate, 'read_amount': amount, 'traffic': kind, 'reads_per_stream': n_reads,
-               'late_wakeups': late(0, 0) != 0.0 or True, 'abandoned': abandon_at, 'closed_with_pending_bytes': closing}
+               'late_wakeups': late(0, 0) != 0.0 or True, 'abandoned': abandon_at, 'closed_with_pending_bytes': closing,
+               'read_amount_per_stream': amounts}
         if sim['fail'] is not None:
             res.violation('limiter-hangs', wit, repr(sim['fail']))
             continue
@@ -432,26 +531,9 @@ def oracle(seed, tier):
                           "stream %d's transfer had failed when its read %d was refused by the limiter, and the read returned "
                           "data instead of raising the transfer's error" % (i, k))
         grants = sorted(sim['grants'], key=lambda g: g[3])
-        # interval bound: every window between two grants
-        burst = (2 * nstreams + 4) * amount
-        if grants:
-            times = [g[0] for g in grants]
-            cum = [0]
-            for g in grants:
-                cum.append(cum[-1] + g[1])
-            worst = None
-            for a in range(len(grants)):
-                for b in range(a, min(len(grants), a + 200)):
-                    T = times[b] - times[a]
-                    moved = cum[b + 1] - cum[a]
-                    if moved > 1.25 * maxrate * T + burst + 1e-6:
-                        worst = (times[a], T, moved)
-                        break
-                if worst:
-                    break
-            if worst:
-                res.violation('window-bound', dict(wit, window_start=worst[0], T=worst[1], bytes=worst[2], burst=burst),
-                              '%d bytes moved in %.4fs, bound 1.25*max*T+burst = %.0f' % (worst[2], worst[1], 1.25 * maxrate * worst[1] + burst))
+        burst = (2 * nstreams + 4) * max([amount] + list(amounts.values()))
+        for sig, w, what in window_violations(sim, maxrate, burst):
+            res.violation(sig, dict(wit, **w), what)
         # traffic whose demand stays below the limit is never delayed: as long as every attempt so far
         # asked for at most max*(time since the previous grant), no attempt may be refused
         t_prev, calm = None, True
@@ -537,6 +619,10 @@ def oracle(seed, tier):
                           '%d bytes of small objects delivered in %.4fs, bound 1.25*max*T+burst = %.0f'
                           % (bad[2], bad[1], 1.25 * maxrate * bad[1] + burst))
         res.nontrivial.add(('small', it))
+    # D17: the statement's single bound for mixed traffic, on a fixed witness
+    for sig, w, what in _d17_probe():
+        res.violation(sig, w, what)
+    res.evaluations += 1
     # D5: two scheduled releases at the same clock reading
     d5 = _d5_probe()
     if d5:
